@@ -2462,6 +2462,7 @@ func (pid *PID) freeWatchers(ctx context.Context) {
 	tree := pid.ActorSystem().tree()
 	watchers := tree.watchers(pid)
 	for _, watcher := range watchers {
+		verifhook.At("fw.watcher", watcher, 0, 0)
 		terminated := NewTerminated(pid.Path())
 
 		if watcher.IsRunning() {
@@ -2557,6 +2558,8 @@ func (pid *PID) freeChildren(ctx context.Context) error {
 		eg, ctx := errgroup.WithContext(ctx)
 		for _, child := range children {
 			eg.Go(func() error {
+				verifhook.At("fc.child", child, 0, 0)
+				defer verifhook.At("fc.child.end", child, 0, 0)
 				logger.Debugf("parent %s disowning descendant %s", pid.Name(), child.Name())
 				pid.UnWatch(child)
 				tree.removeDescendant(node.id, child.ID())
